@@ -132,15 +132,14 @@ def fam_params(n):
 
 
 def fam_params_spread(n):
-    """n formal parameters, the arguments supplied through a spread / apply (a literal list of n arguments has its own limit)"""
+    """n formal parameters, the arguments supplied through a spread / apply (a literal list of n arguments has its own limit);
+    the bodies use only a few of them, so that the parameter list itself is what meets the register file"""
     ps = ",".join("p%d: number" % i for i in range(n))
-    body = "+".join("p%d" % i for i in range(n)) or "0"
-    last = "p%d" % (n - 1) if n else "0"
-    src = ("let keep = 4242; const xs = Array.from({length: %d}, (_, i) => i); function f(%s) { return (%s) + ':' + %s; } class C { m(%s) { return %s; } } const ar = (%s) => { return %s; };\n"
-           "[keep, f(...xs), f.apply(null, xs), new C().m(...xs), ar(...xs)].join(',')" % (n, ps, body, last, ps, last, ps, last))
-    t = n * (n - 1) // 2
-    l = n - 1 if n else 0
-    return src, "4242,%d:%d,%d:%d,%d,%d" % (t, l, t, l, l, l)
+    pick = "[%s].join(':')" % ", ".join("p%d" % i for i in sorted({0, n // 2, max(0, n - 2), n - 1}) if 0 <= i < n) if n else "''"
+    src = ("let keep = 4242; const xs = Array.from({length: %d}, (_, i) => i * 10); function f(%s) { return %s; } class C { m(%s) { return %s; } } const ar = (%s) => { return %s; };\n"
+           "[keep, f(...xs), f.apply(null, xs), new C().m(...xs), ar(...xs)].join(',')" % (n, ps, pick, ps, pick, ps, pick))
+    v = ":".join(str(i * 10) for i in sorted({0, n // 2, max(0, n - 2), n - 1}) if 0 <= i < n) if n else ""
+    return src, "4242,%s,%s,%s,%s" % (v, v, v, v)
 
 
 def fam_template(n):
